@@ -3,12 +3,15 @@
 set -u
 P=$1; shift
 if [ -n "$(git -C /repo status --porcelain --untracked-files=no)" ]; then echo "/repo not clean"; exit 3; fi
-git -C /repo apply "$P" || exit 4
-trap 'git -C /repo checkout -- . ' EXIT
+# snapshot of the compiled development (mtimes preserved) so that the restored tree needs no recompilation afterwards
+SNAP=$(mktemp -d /tmp/coqsnap.XXXXXX); rsync -a /verif/coq/ "$SNAP/"
+git -C /repo apply "$P" || { rm -rf "$SNAP"; exit 4; }
+trap 'git -C /repo checkout -- . ; rsync -a --delete "$SNAP/" /verif/coq/; rm -rf "$SNAP"' EXIT
 for prop in "$@"; do
   out=$(cd /verif && ./check $prop 2>/dev/null | grep -E "^(VIOLATION|OK|KNOWN)" | grep -v KNOWN | head -2 | tr '\n' ' ')
   echo "$prop: $out"
 done
 # leave the generated tables and the harness in sync with the (restored) tree
 git -C /repo checkout -- . ; trap - EXIT
-python3 /verif/translate/avt2coq.py /repo/src /verif/coq/Gen >/dev/null 2>&1
+rsync -a --delete "$SNAP/" /verif/coq/; rm -rf "$SNAP"
+python3 /verif/translate/avt2coq.py /repo/src /verif/coq/Gen 2>&1 | grep -o "changed files.*"
